@@ -328,3 +328,164 @@ mod history {
         assert!(resp.is_ok(), "htlc_accepted call never answered (lifecycle task panicked in todo!())");
     }
 }
+
+/// History replays of the REAL `ClnDatastore` against an in-process fake of the node's datastore
+/// RPCs (unix socket; modes, generations and one injectable fault as documented for
+/// `datastore` / `listdatastore`).
+#[cfg(all(test, feature = "verif"))]
+mod store_history {
+    use std::{
+        collections::BTreeMap,
+        sync::{Arc, Mutex},
+    };
+
+    use secp256k1::hashes::{sha256, Hash};
+    use serde_json::{json, Value};
+    use tokio::{
+        io::{AsyncReadExt, AsyncWriteExt},
+        net::UnixListener,
+    };
+
+    use crate::{
+        messages::{TrampolineInfo, TrampolineRoutingPolicy},
+        rpc::Rpc,
+        store::{ClnDatastore, Datastore, PaymentState},
+    };
+
+    #[derive(Default)]
+    struct Node {
+        ds: BTreeMap<Vec<String>, (String, u64)>,
+        /// fail the n-th `datastore` call (0-based) with an error, not applying it
+        reject_call: Option<usize>,
+        calls: usize,
+    }
+
+    fn handle(node: &mut Node, req: &Value) -> Value {
+        let id = req["id"].clone();
+        let p = &req["params"];
+        let key: Vec<String> = serde_json::from_value(p["key"].clone()).unwrap_or_default();
+        let err = |m: &str| json!({"jsonrpc":"2.0","id":id,"error":{"code":1202,"message":m}});
+        match req["method"].as_str().unwrap_or("") {
+            "datastore" => {
+                let n = node.calls;
+                node.calls += 1;
+                if node.reject_call == Some(n) {
+                    return err("injected fault");
+                }
+                let mode = p["mode"].as_str().unwrap_or("must-create");
+                let exists = node.ds.contains_key(&key);
+                if let Some(g) = p["generation"].as_u64() {
+                    if !exists || node.ds[&key].1 != g {
+                        return err("generation is different");
+                    }
+                }
+                match mode {
+                    "must-create" if exists => return err("already exists"),
+                    "must-replace" if !exists => return err("does not exist"),
+                    _ => {}
+                }
+                let gen = if exists { node.ds[&key].1 + 1 } else { 0 };
+                let s = p["string"].as_str().unwrap_or("").to_string();
+                node.ds.insert(key.clone(), (s.clone(), gen));
+                json!({"jsonrpc":"2.0","id":id,"result":{"key":key,"generation":gen,"string":s}})
+            }
+            "listdatastore" => {
+                let l: Vec<Value> = node
+                    .ds
+                    .iter()
+                    .filter(|(k, _)| k.starts_with(&key))
+                    .map(|(k, (s, g))| json!({"key":k,"generation":g,"string":s}))
+                    .collect();
+                json!({"jsonrpc":"2.0","id":id,"result":{"datastore":l}})
+            }
+            m => err(&format!("unknown method {}", m)),
+        }
+    }
+
+    async fn serve(listener: UnixListener, node: Arc<Mutex<Node>>) {
+        loop {
+            let (mut sock, _) = match listener.accept().await {
+                Ok(x) => x,
+                Err(_) => return,
+            };
+            let node = Arc::clone(&node);
+            tokio::spawn(async move {
+                let mut buf = Vec::new();
+                let mut chunk = [0u8; 4096];
+                loop {
+                    let n = match sock.read(&mut chunk).await {
+                        Ok(0) | Err(_) => return,
+                        Ok(n) => n,
+                    };
+                    buf.extend_from_slice(&chunk[..n]);
+                    if let Ok(req) = serde_json::from_slice::<Value>(&buf) {
+                        buf.clear();
+                        let resp = handle(&mut node.lock().unwrap(), &req);
+                        let mut out = serde_json::to_vec(&resp).unwrap();
+                        out.extend_from_slice(b"\n\n");
+                        if sock.write_all(&out).await.is_err() {
+                            return;
+                        }
+                    }
+                }
+            });
+        }
+    }
+
+    fn trampoline() -> TrampolineInfo {
+        let preimage = [7u8; 32];
+        let key = secp256k1::SecretKey::from_slice(&[0x22u8; 32]).unwrap();
+        let bolt11 = lightning_invoice::InvoiceBuilder::new(lightning_invoice::Currency::Bitcoin)
+            .description("verif".into())
+            .payment_hash(sha256::Hash::hash(&preimage))
+            .payment_secret(lightning_invoice::PaymentSecret([42u8; 32]))
+            .timestamp(std::time::SystemTime::UNIX_EPOCH)
+            .min_final_cltv_expiry_delta(144)
+            .amount_milli_satoshis(1_000_000)
+            .build_signed(|h| secp256k1::Secp256k1::new().sign_ecdsa_recoverable(h, &key))
+            .unwrap()
+            .to_string();
+        let invoice: lightning_invoice::Bolt11Invoice = bolt11.parse().unwrap();
+        TrampolineInfo {
+            payee: invoice.get_payee_pub_key(),
+            invoice,
+            bolt11,
+            amount_msat: 1_000_000,
+            routing_policy: TrampolineRoutingPolicy {
+                cltv_expiry_delta: 1008,
+                fee_base_msat: 0,
+                fee_proportional_millionths: 5000,
+            },
+        }
+    }
+
+    /// C09 (D4): the second write of add_payment_attempt (the attempt record) is lost/rejected,
+    /// nothing is paid. After that image the recovery write (mark_failed) must succeed, so that
+    /// the hash does not stay `Pending` -- and every later HTLC set fails -- forever.
+    #[tokio::test]
+    async fn verif_history_c09_lost_attempt_record_wedges_hash() {
+        let dir = std::env::temp_dir().join(format!("verif-rpc-{}", std::process::id()));
+        let _ = std::fs::remove_file(&dir);
+        let listener = UnixListener::bind(&dir).unwrap();
+        let node = Arc::new(Mutex::new(Node { reject_call: Some(1), ..Default::default() }));
+        tokio::spawn(serve(listener, Arc::clone(&node)));
+        let store = ClnDatastore::new(Arc::new(Rpc::new(dir.to_string_lossy().to_string())));
+        let t = trampoline();
+
+        // run 1: state record written (call 0), attempt record rejected (call 1)
+        let r = store.add_payment_attempt(&t).await;
+        assert!(r.is_err(), "fault injection did not fire");
+        // run 2 (restart or next HTLC set): the stored state is Pending, nothing is live
+        let attempt_id = match store.fetch_payment_info(&t).await.unwrap() {
+            PaymentState::Pending { attempt_id, .. } => attempt_id,
+            _ => panic!("expected Pending after the interrupted add_payment_attempt"),
+        };
+        let first = store.mark_failed(&t, &attempt_id).await;
+        let second = store.mark_failed(&t, &attempt_id).await;
+        println!("HISTORY c09_lost_attempt_record mark_failed #1={:?} #2={:?} datastore={:?}",
+            first.as_ref().map_err(|e| e.to_string()), second.as_ref().map_err(|e| e.to_string()),
+            node.lock().unwrap().ds);
+        let _ = std::fs::remove_file(&dir);
+        assert!(first.is_ok(), "recovery write fails on a reachable image: the hash is wedged in Pending");
+    }
+}
